@@ -39,4 +39,7 @@ ShiftDfaConforms ==
 DebugAlias == [ci |-> ci, bad |-> IF st # "recorded" \/ C.err # "" THEN {} ELSE
    { <<C.scans[k], LongestMatch(C.rules, C.scans[k].sc, C.scans[k].t, Width(C), Canon(C))>> :
        k \in { k \in 1..Len(C.scans) : LongestMatch(C.rules, C.scans[k].sc, C.scans[k].t, Width(C), Canon(C)) # <<C.scans[k].size, C.scans[k].action>> } }]
+DebugAlias2 == [ci |-> ci, bad |-> IF st # "recorded" \/ ~C.sdfaOk THEN {} ELSE
+   { <<C.sdfa[k], LongestMatch(C.rules, 0, C.sdfa[k].t, Width(C), Canon(C))>> :
+       k \in { k \in 1..Len(C.sdfa) : LongestMatch(C.rules, 0, C.sdfa[k].t, Width(C), Canon(C)) # <<C.sdfa[k].size, C.sdfa[k].action>> } }]
 =============================================================================
